@@ -1382,6 +1382,8 @@ class Session:
 
 
 def execute(spec):
+    if spec.get("mode") == "xproc":
+        return execute_xproc(spec)
     return Session(spec).run()
 
 
@@ -1504,13 +1506,13 @@ class _Engine:
         if prop != "C06":
             return {}
         if tier != "thorough":
-            return {"cross_process_restarts": "thorough tier only"}
-        return cross_process_restarts(seed, tier, n_worlds=24, hashseeds=(3, 99991))
+            return cross_process_restarts(seed, tier, n_worlds=12, hashseeds=(99991,))
+        return cross_process_restarts(seed, tier, n_worlds=48, hashseeds=(3, 99991))
 
 
-def cross_process_restarts(seed, tier, n_worlds, hashseeds):
-    """Thorough tier: the JSON string written by this process is loaded and transformed in fresh
-    interpreters under other PYTHONHASHSEED values (fault kind restart_cross_process)."""
+def execute_xproc(spec):
+    """mode 'xproc': fit here (identity schedule, n_jobs=1), save the JSON string, load and transform it
+    in a fresh interpreter under another real PYTHONHASHSEED (fault kind restart_cross_process)."""
     import os  # pylint: disable=C0415
     import shutil  # pylint: disable=C0415
     import subprocess  # pylint: disable=C0415
@@ -1519,62 +1521,105 @@ def cross_process_restarts(seed, tier, n_worlds, hashseeds):
 
     from .realcheck import reference_digest  # pylint: disable=C0415
 
+    import_autocarver()
+    seams.install()
     here = os.path.dirname(os.path.dirname(os.path.abspath(__file__)))
+    log = EventLog(spec.get("seed"), ["session-xproc", spec.get("idx")])
+    world = spec["world"]
+    with seams.scheduling(seams.Scheduler(mode="identity")), contextlib.redirect_stdout(_DEVNULL):
+        ref = reference_digest(world, 1, install_seams=True)
+    result = {
+        "violations": [],
+        "stats": {"faults": {}},
+        "nontrivial": False,
+        "distinct_key": digest([world, spec.get("hashseeds")]),
+        "steps": 0,
+        "skipped": 0,
+        "world_rejected": {},
+    }
+    if not isinstance(ref, tuple):
+        log.add("live", "fit", None, "rejected")
+        result.update(fingerprint=log.fingerprint(), sim_time=log.seq, world_rejected={"fit": 1})
+        return result
+    _, text = ref
+    expected = _load_digest_in_process(world, text)
+    log.add("live", "save", None, "ok", digest(parsed_json(text)))
     scratch = tempfile.mkdtemp(prefix="acsim_xproc_")
-    checked, mismatches, skipped = 0, [], 0
+    problems = []
     try:
-        idx = 0
-        while checked < n_worlds and idx < 600:
-            spec = generate("C06", seed, idx, tier)
-            idx += 1
-            with seams.scheduling(seams.Scheduler(mode="identity")):
-                ref = reference_digest(spec["world"], 1, install_seams=True)
-            if not isinstance(ref, tuple):
-                skipped += 1
-                continue
-            ref_digest, text = ref
-            path = os.path.join(scratch, f"spec{idx}.json")
-            with open(path, "w", encoding="utf-8") as fobj:
-                json.dump({"world": spec["world"], "saved_json": text}, fobj)
-            for hs in hashseeds:
-                env = dict(os.environ, PYTHONHASHSEED=str(hs), VERIF_NO_REEXEC="1")
-                proc = subprocess.run(
-                    [sys.executable, "-m", "acsim.realcheck", path, "load"],
-                    capture_output=True, text=True, env=env, cwd=here, timeout=600, check=False,
-                )
-                got = None
-                for line in reversed(proc.stdout.splitlines()):
-                    if line.startswith("{"):
-                        got = json.loads(line)
-                        break
-                # the in-process reference digest includes the fitted orders; recompute its output part
-                problem = None
-                if got is None:
-                    problem = f"no report: {proc.stderr[-300:]}"
-                else:
-                    diff = json_diff(parsed_json(text), parsed_json(got["json_again"]))
-                    if diff:
-                        problem = f"JSON again differs at {diff}"
-                    elif got["digest"] != _load_digest_in_process(spec["world"], text):
-                        problem = "transform output differs from the in-process reload"
-                if problem:
-                    mismatches.append({"run": idx - 1, "hashseed": hs, "problem": problem})
-            checked += 1
-            _ = ref_digest
+        path = os.path.join(scratch, "spec.json")
+        with open(path, "w", encoding="utf-8") as fobj:
+            json.dump({"world": world, "saved_json": text}, fobj)
+        for hs in spec["hashseeds"]:
+            env = dict(os.environ, PYTHONHASHSEED=str(hs), VERIF_NO_REEXEC="1")
+            proc = subprocess.run(
+                [sys.executable, "-m", "acsim.realcheck", path, "load"],
+                capture_output=True, text=True, env=env, cwd=here, timeout=600, check=False,
+            )
+            got = None
+            for line in reversed(proc.stdout.splitlines()):
+                if line.startswith("{"):
+                    got = json.loads(line)
+                    break
+            if got is None:
+                raise HarnessError(f"cross-process load produced no report: rc={proc.returncode} {proc.stderr[-300:]}")
+            diff = json_diff(parsed_json(text), parsed_json(got["json_again"]))
+            if diff:
+                problems.append(f"PYTHONHASHSEED={hs}: re-serialised JSON differs at {diff}")
+            elif got["digest"] != expected:
+                problems.append(f"PYTHONHASHSEED={hs}: transform output differs from the in-process reload")
+            log.add("fresh", "load+transform", hs, "ok", got["digest"])
+            result["stats"]["faults"]["restart_cross_process"] = result["stats"]["faults"].get("restart_cross_process", 0) + 1
     finally:
         shutil.rmtree(scratch, ignore_errors=True)
+    if problems:
+        result["violations"] = [
+            {
+                "property": "C06",
+                "oracle": "cross_process_restart",
+                "step": -1,
+                "message": "; ".join(problems),
+                "signature": {"oracle": "cross_process_restart"},
+            }
+        ]
+    result.update(fingerprint=log.fingerprint(), sim_time=log.seq, nontrivial=True, steps=len(spec["hashseeds"]))
+    return result
+
+
+def cross_process_restarts(seed, tier, n_worlds, hashseeds):
+    """A sample of restarts across a real process boundary (more of them in the thorough tier)."""
+    import concurrent.futures as cf  # pylint: disable=C0415
+
+    specs = []
+    for idx in range(n_worlds):
+        base = generate("C06", seed, idx, tier)
+        specs.append(
+            {"engine": "session", "mode": "xproc", "property": "C06", "seed": seed, "idx": idx, "tier": tier,
+             "world": base["world"], "hashseeds": list(hashseeds), "ops": []}
+        )
+    import multiprocessing  # pylint: disable=C0415
+
+    # processes, not threads: the scheduler stack of the seams is process-global
+    with cf.ProcessPoolExecutor(max_workers=8, mp_context=multiprocessing.get_context("fork")) as ppool:
+        results = list(ppool.map(execute_xproc, specs))
+    violations = [
+        {"idx": spec["idx"], "violation": viol, "spec": spec}
+        for spec, res in zip(specs, results)
+        for viol in res["violations"]
+    ]
+    executions = sum(res["stats"]["faults"].get("restart_cross_process", 0) for res in results)
     out = {
         "cross_process_restarts": {
             "label": "real process boundary: JSON saved here, loaded and transformed in fresh interpreters under other PYTHONHASHSEED values",
-            "worlds": checked,
+            "worlds": len(specs),
             "hashseeds": list(hashseeds),
-            "executions": checked * len(hashseeds),
-            "skipped_worlds_rejected_at_fit": skipped,
-            "mismatches": mismatches,
+            "executions": executions,
+            "skipped_worlds_rejected_at_fit": sum(1 for res in results if res["world_rejected"]),
+            "violations": len(violations),
         }
     }
-    if mismatches:
-        out["_mismatch"] = True
+    if violations:
+        out["_violations"] = violations
     return out
 
 
